@@ -81,10 +81,11 @@ func trieExhaustive(w *run.Worker) {
 			return
 		}
 		c.Desc("subset mask %09b of %v", mask, trieExhUniverse)
+		r := caseRng(c, w)
 		build := func() (*digest.InstanceNameTrie, map[string]int) {
 			it := digest.NewInstanceNameTrie()
 			ref := map[string]int{}
-			order := c.Rng.Perm(len(trieExhUniverse))
+			order := r.Perm(len(trieExhUniverse))
 			for _, i := range order {
 				if mask&(1<<i) != 0 {
 					it.Set(mustName(trieExhUniverse[i]), i)
@@ -119,7 +120,7 @@ func trieExhaustive(w *run.Worker) {
 // names only: removing an absent name is outside the documented contract).
 func trieCase(w *run.Worker) func(c *run.Case) {
 	return func(c *run.Case) {
-		r := c.Rng
+		r := caseRng(c, w)
 		it := digest.NewInstanceNameTrie()
 		ref := map[string]int{}
 		touched := map[string]bool{}
